@@ -25,8 +25,31 @@ Inductive lstate :=
 Definition window_end (w ct : N) : N :=
   let next_end := secs ct + w in of_secs (next_end - next_end mod w).
 
-(* CredSoftLockPolicy::failure_next_state (softlock.rs:77), arm by arm *)
+(* CredSoftLockPolicy::failure_next_state (softlock.rs:77) as repaired by /repo commit
+   5cd0e73: `let unlock_at = if .. {..}; Locked { count, reset_at: reset_at.max(unlock_at), unlock_at }` *)
 Definition failure_next_state (p : policy) (count ct : N) : lstate :=
+  match p with
+  | PPassword =>
+      let reset_at := window_end ONEDAY ct in
+      let unlock_at :=
+        if count <? 3 then ct + of_secs 1
+        else if count <? 9 then ct + of_secs 3
+        else if count <? 25 then ct + of_secs 5
+        else if count <? 100 then ct + of_secs 10
+        else reset_at in
+      Locked count (N.max reset_at unlock_at) unlock_at
+  | PTotp step =>
+      let reset_at := window_end step ct in
+      let unlock_at := if 3 <=? count then reset_at else ct + of_secs 1 in
+      Locked count (N.max reset_at unlock_at) unlock_at
+  | PWebauthn => Locked count (ct + of_secs 1) (ct + of_secs 1)
+  | PUnrestricted => Init
+  end.
+
+(* PRE-FIX behaviour (the tree before 5cd0e73), kept ONLY to document the defect
+   (C28_prefix_refuted): reset_at was the bare window end, so a lock whose unlock time lay
+   beyond it was re-opened by the window reset. Not used by agree/pcheck. *)
+Definition failure_next_state_prefix (p : policy) (count ct : N) : lstate :=
   match p with
   | PPassword =>
       let reset_at := window_end ONEDAY ct in
@@ -121,6 +144,26 @@ Fixpoint exec (s : slock) (l : list ev) : list obs :=
   | e :: r => let '(s', o) := attempt s e in (o, st s', last_exp s') :: exec s' r
   end.
 
+(* the same discipline over the PRE-FIX failure_next_state (documentation of the defect only) *)
+Definition record_failure_prefix (s : slock) (ct : N) : slock :=
+  mk (match st s with
+      | Init => failure_next_state_prefix (pol s) 1 ct
+      | Locked count _ _ => failure_next_state_prefix (pol s) (count + 1) ct
+      | Unlocked count _ => failure_next_state_prefix (pol s) (count + 1) ct
+      end) (pol s) (last_exp s).
+Definition attempt_prefix (s : slock) (e : ev) : slock * outcome :=
+  let s1 := apply_time_step s (ev_ct e) (ev_exp e) in
+  if is_valid s1
+  then if ev_bad e then (record_failure_prefix s1 (ev_ct e), Failed) else (s1, Passed)
+  else (s1, Refused).
+Fixpoint exec_prefix (s : slock) (l : list ev) : list obs :=
+  match l with
+  | [] => []
+  | e :: r => let '(s', o) := attempt_prefix s e in (o, st s', last_exp s') :: exec_prefix s' r
+  end.
+Fixpoint final_prefix (s : slock) (l : list ev) : slock :=
+  match l with [] => s | e :: r => final_prefix (fst (attempt_prefix s e)) r end.
+
 (* ------------------------------------------------------------------ spec-level predicates
    (evaluated on OBSERVED outputs; they do not call the functions above) *)
 Definition count_of (x : lstate) : N :=
@@ -176,7 +219,7 @@ Definition rate_ok (p : policy) (l : list ev) (os : list obs) : bool :=
   end.
 
 (* P1: after a failure the credential is refused at every following consultation up to
-   `lim`.  full = up to unlock_at; partial = up to min unlock_at reset_at. *)
+   (and including) the instant unlock_at, as long as no new administrator expiry arrives. *)
 Fixpoint refused_while (le lim : N) (l : list ev) (os : list obs) : bool :=
   match l, os with
   | e :: r, (o, _, _) :: os' =>
@@ -186,16 +229,16 @@ Fixpoint refused_while (le lim : N) (l : list ev) (os : list obs) : bool :=
   | _, _ => true
   end.
 
-Fixpoint locked_ok (full : bool) (l : list ev) (os : list obs) : bool :=
+Fixpoint locked_ok (l : list ev) (os : list obs) : bool :=
   match l, os with
   | e :: r, (o, x, le) :: os' =>
       (match o, x with
        | Failed, Locked _ ra ua =>
-           (ev_ct e <? ua) && refused_while le (if full then ua else N.min ua ra) r os'
+           (ev_ct e <? ua) && (ua <=? ra) && refused_while le ua r os'
        | Failed, Init => true          (* unrestricted credential: nothing is locked *)
        | Failed, Unlocked _ _ => false (* a failure always locks *)
        | _, _ => true
-       end) && locked_ok full r os'
+       end) && locked_ok r os'
   | _, _ => true
   end.
 
@@ -249,20 +292,22 @@ Definition rest_ok (p : policy) (l : list ev) (os : list obs) : bool :=
   (if mono 0 l && quiet_all 0 l then never_shorter None l os else true) &&
   count_ok (is_unrestricted p) Init 0 l os.
 
-(* ------------------------------------------------------------------ failure_next_state spec *)
+(* ------------------------------------------------------------------ failure_next_state spec
+   stated without the code's `x - x % w` formula: the window of instant ct ends at
+   (secs ct / w + 1) * w seconds; reset_at is that end, pushed out to unlock_at if the lock
+   lasts longer (so that unlock_at <= reset_at always). *)
+Definition wend (w ct : N) : N := (secs ct / w + 1) * (w * G).
 Definition next_spec (p : policy) (count ct : N) (x : lstate) : bool :=
   match p, x with
   | PUnrestricted, Init => true
   | PUnrestricted, _ => false
   | PWebauthn, Locked c ra ua => (c =? count) && (ua =? ct + G) && (ra =? ua)
   | PPassword, Locked c ra ua =>
-      (c =? count) && (ct <? ua) &&
-      (ra mod (ONEDAY * G) =? 0) && (secs ct * G <? ra) && (ra <=? secs ct * G + ONEDAY * G) &&
-      (if 100 <=? count then ua =? ra else (ct + G <=? ua) && (ua <=? ct + 10 * G))
+      (c =? count) && (ct <? ua) && (ua <=? ra) && (ra =? N.max (wend ONEDAY ct) ua) &&
+      (if 100 <=? count then ua =? wend ONEDAY ct else (ct + G <=? ua) && (ua <=? ct + 10 * G))
   | PTotp step, Locked c ra ua =>
-      (c =? count) && (ct <? ua) &&
-      (ra mod (step * G) =? 0) && (secs ct * G <? ra) && (ra <=? secs ct * G + step * G) &&
-      (if 3 <=? count then ua =? ra else ua =? ct + G)
+      (c =? count) && (ct <? ua) && (ua <=? ra) && (ra =? N.max (wend step ct) ua) &&
+      (if 3 <=? count then ua =? wend step ct else ua =? ct + G)
   | _, _ => false
   end.
 
@@ -306,8 +351,9 @@ Definition agree (c : case) : bool :=
   | CEvents _ p evs impl => list_eqb obs_eqb (exec (new p) evs) impl
   end.
 
-(* raw traces: an observed Locked state stays Locked under a quiet time step that is not
-   after min unlock_at reset_at; is the local form of P1 on arbitrary states *)
+(* raw traces start in ARBITRARY lock states (also ones no history produces, e.g. with
+   reset_at < unlock_at): an observed Locked state stays Locked under a quiet time step that
+   is not after min unlock_at reset_at — the local form of P1 on arbitrary states *)
 Fixpoint raw_ok (pre : lstate) (le : N) (ops : list op) (os : list (lstate * N)) : bool :=
   match ops, os with
   | o :: r, (x, le') :: os' =>
@@ -325,15 +371,9 @@ Definition pcheck (c : case) : bool :=
   match c with
   | CNext p count ct impl => next_spec p count ct impl
   | CRaw p s0 le0 ops impl => raw_ok s0 le0 ops impl
-  | CEvents _ p evs impl => locked_ok true evs impl && rest_ok p evs impl
+  | CEvents _ p evs impl => locked_ok evs impl && rest_ok p evs impl
   end.
 
-(* Known-finding class: the ONLY breach of "refused until unlock_at" is a consultation in
-   (reset_at, unlock_at] of a lock whose unlock time lies beyond its window's reset time
-   (the window reset fires first and re-opens the credential). *)
-Definition known (c : case) : bool :=
-  match c with
-  | CEvents _ p evs impl =>
-      negb (locked_ok true evs impl) && locked_ok false evs impl && rest_ok p evs impl
-  | _ => false
-  end.
+(* no known-finding class: the early re-opening found by this check was fixed in /repo
+   commit 5cd0e73 *)
+Definition known (_ : case) : bool := false.
